@@ -47,7 +47,7 @@ static RunOut do_run (const struct nsim_family *fam, uint64_t seed, bool gen, co
 	if (gen) fam->generate ();
 	fam->configure ();
 	int v = rt_run (fam);
-	if (g.viol.cls == V_NONE) fam->end_state (v);
+	if (g.viol.cls == V_NONE && v != RV_LIMIT) fam->end_state (v);
 	RunOut o;
 	o.verdict = g.viol.cls != V_NONE ? RV_VIOLATION : v;
 	o.viol = g.viol;
@@ -62,7 +62,7 @@ static std::string sig_of (const Violation &v) {
 
 // ------------------------------------------------------------------------------------------
 struct Stats {
-	int64_t runs = 0, finished = 0, stuck = 0, noprog = 0, viol = 0, drained = 0;
+	int64_t runs = 0, finished = 0, stuck = 0, noprog = 0, viol = 0, drained = 0, limit = 0;
 	int64_t steps = 0, simtime_ns = 0, switches = 0, natomics = 0, futex_blocks = 0, clock_jumps = 0, idle_jumps = 0;
 	int64_t faults[CH_NKINDS + 4] = { 0 };
 	int64_t runs_no_fault = 0, nontrivial = 0;
@@ -87,7 +87,8 @@ static void json_escape (FILE *fp, const char *s) {
 static void write_stats (const char *path, const Stats &s, int reach_probe) {
 	FILE *fp = fopen (path, "w");
 	if (!fp) return;
-	fprintf (fp, "{\"runs\":%lld,\"finished\":%lld,\"stuck\":%lld,\"no_progress\":%lld,\"violations\":%lld,\"drained\":%lld,",
+	fprintf (fp, "{\"discarded_limit\":%lld,", (long long) s.limit);
+	fprintf (fp, "\"runs\":%lld,\"finished\":%lld,\"stuck\":%lld,\"no_progress\":%lld,\"violations\":%lld,\"drained\":%lld,",
 		 (long long) s.runs, (long long) s.finished, (long long) s.stuck, (long long) s.noprog, (long long) s.viol, (long long) s.drained);
 	fprintf (fp, "\"steps\":%lld,\"simtime_ns\":%lld,\"switches\":%lld,\"atomics\":%lld,\"futex_blocks\":%lld,\"clock_jumps\":%lld,\"idle_jumps\":%lld,",
 		 (long long) s.steps, (long long) s.simtime_ns, (long long) s.switches, (long long) s.natomics, (long long) s.futex_blocks,
@@ -125,6 +126,7 @@ static int worker (const struct nsim_family *fam, uint64_t base, int64_t first, 
 		case RV_FINISHED: st.finished++; break;
 		case RV_STUCK: st.stuck++; break;
 		case RV_NO_PROGRESS: st.noprog++; break;
+		case RV_LIMIT: st.limit++; break;
 		default: st.viol++; break;
 		}
 		st.drained += g.drained_runs_flag;
@@ -474,6 +476,7 @@ int main (int argc, char **argv) {
 		nsim_scenario_print (buf, sizeof buf);
 		printf ("config=%s family=%s index=%lld seed=%llu policy=%d\nscenario %s\n", NSIM_CONFIG, fam->name, one, (unsigned long long) s, g.pol.kind, buf);
 		print_run (o);
+		if (minout) { std::vector<uint16_t> rec0 = g.rec; write_replay (minout, fam, s, one, o, rec0); }
 		if (twice) {
 			// determinism gate: same seed again, then the explicit choice list
 			std::vector<uint16_t> rec = g.rec;
